@@ -1,0 +1,80 @@
+//! Constructors needed by the external verification harness (only compiled with
+//! `--cfg dust_dds_verif`). They only build values from `pub(crate)` fields; they
+//! contain no logic of their own.
+use crate::{
+    builtin_topics::{BuiltInTopicKey, PublicationBuiltinTopicData, SubscriptionBuiltinTopicData},
+    infrastructure::qos::{DataReaderQos, DataWriterQos, PublisherQos, SubscriberQos, TopicQos},
+};
+use alloc::string::String;
+
+/// Builds the publication data a writer with the given QoS would announce.
+pub fn publication_builtin_topic_data(
+    key: [u8; 16],
+    participant_key: [u8; 16],
+    topic_name: &str,
+    type_name: &str,
+    qos: &DataWriterQos,
+    publisher_qos: &PublisherQos,
+    topic_qos: &TopicQos,
+) -> PublicationBuiltinTopicData {
+    PublicationBuiltinTopicData {
+        key: BuiltInTopicKey { value: key },
+        participant_key: BuiltInTopicKey {
+            value: participant_key,
+        },
+        topic_name: String::from(topic_name).into(),
+        type_name: String::from(type_name).into(),
+        type_information: None,
+        durability: qos.durability.clone(),
+        deadline: qos.deadline.clone(),
+        latency_budget: qos.latency_budget.clone(),
+        liveliness: qos.liveliness.clone(),
+        reliability: qos.reliability.clone(),
+        lifespan: qos.lifespan.clone(),
+        user_data: qos.user_data.clone(),
+        ownership: qos.ownership.clone(),
+        ownership_strength: qos.ownership_strength.clone(),
+        destination_order: qos.destination_order.clone(),
+        presentation: publisher_qos.presentation.clone(),
+        partition: publisher_qos.partition.clone(),
+        topic_data: topic_qos.topic_data.clone(),
+        group_data: publisher_qos.group_data.clone(),
+        representation: qos.representation.clone(),
+    }
+}
+
+/// Builds the subscription data a reader with the given QoS would announce.
+pub fn subscription_builtin_topic_data(
+    key: [u8; 16],
+    participant_key: [u8; 16],
+    topic_name: &str,
+    type_name: &str,
+    qos: &DataReaderQos,
+    subscriber_qos: &SubscriberQos,
+    topic_qos: &TopicQos,
+) -> SubscriptionBuiltinTopicData {
+    SubscriptionBuiltinTopicData {
+        key: BuiltInTopicKey { value: key },
+        participant_key: BuiltInTopicKey {
+            value: participant_key,
+        },
+        topic_name: String::from(topic_name).into(),
+        type_name: String::from(type_name).into(),
+        type_information: None,
+        durability: qos.durability.clone(),
+        deadline: qos.deadline.clone(),
+        latency_budget: qos.latency_budget.clone(),
+        liveliness: qos.liveliness.clone(),
+        reliability: qos.reliability.clone(),
+        ownership: qos.ownership.clone(),
+        destination_order: qos.destination_order.clone(),
+        user_data: qos.user_data.clone(),
+        time_based_filter: qos.time_based_filter.clone(),
+        presentation: subscriber_qos.presentation.clone(),
+        partition: subscriber_qos.partition.clone(),
+        topic_data: topic_qos.topic_data.clone(),
+        group_data: subscriber_qos.group_data.clone(),
+        representation: qos.representation.clone(),
+        type_consistency: qos.type_consistency.clone(),
+    }
+}
